@@ -109,6 +109,7 @@ type qProfile struct {
 	weights     map[string]int
 	padSingle   bool // padded lease ids in single-lease ops (memory and sqlite differ; see DESIGN)
 	explicitTS  int  // percent of items with explicit received_at
+	extreme     bool // lease ttls and nack delays of centuries (where nanosecond arithmetic in 64 bits ends)
 	fullBias    bool // bias to full queues
 	blankIDs    bool
 	deliveredOK bool // allow delivered retention together with max_depth on memory
@@ -214,8 +215,11 @@ var (
 	qAdvances = []int{0, 10, 10, 20, 50, 100, 1000, 30000}
 	qSubAdv   = []int{1, 3, 5, 9, 11, 15}
 	qDelays   = []int{0, 0, 10, 20, 100, 1000, -10}
-	qLimits   = []int{-1, 0, 1, 1, 2, 2, 3, 5, 100, 1000, 1001}
-	qBatches  = []int{0, 1, 1, 2, 2, 3, 5, 100, 101, 1000}
+	// 100 / 236 / 237 / 250 years and the largest duration there is, in milliseconds (the clock of the
+	// cases stands in 2026; 64-bit nanoseconds since 1970 end in 2262)
+	qCenturies = []int{3155760000000, 7447000000000, 7479000000000, 7889400000000, 9223372036854}
+	qLimits    = []int{-1, 0, 1, 1, 2, 2, 3, 5, 100, 1000, 1001}
+	qBatches   = []int{0, 1, 1, 2, 2, 3, 5, 100, 101, 1000}
 )
 
 func genOp(t *rapid.T, p qProfile, cfg QCfg) QOp {
@@ -256,6 +260,9 @@ func genOp(t *rapid.T, p qProfile, cfg QCfg) QOp {
 		}
 		op.N = rapid.SampledFrom(qBatches).Draw(t, "batch")
 		op.TTLMs = rapid.SampledFrom(qTTLs).Draw(t, "ttl")
+		if p.extreme && rapid.IntRange(0, 11).Draw(t, "ttl_extreme") == 0 {
+			op.TTLMs = rapid.SampledFrom(qCenturies).Draw(t, "ttl_centuries")
+		}
 		op.UseNow = rapid.IntRange(0, 4).Draw(t, "use_now") == 0
 	case "ack", "nack", "ext", "dead":
 		r := genLRef(t, p, true)
@@ -263,8 +270,14 @@ func genOp(t *rapid.T, p qProfile, cfg QCfg) QOp {
 		switch k {
 		case "nack":
 			op.DurMs = rapid.SampledFrom(qDelays).Draw(t, "delay")
+			if p.extreme && rapid.IntRange(0, 7).Draw(t, "delay_extreme") == 0 {
+				op.DurMs = rapid.SampledFrom(qCenturies).Draw(t, "delay_centuries")
+			}
 		case "ext":
 			op.DurMs = rapid.SampledFrom([]int{0, -10, 10, 20, 50, 1000}).Draw(t, "extend")
+			if p.extreme && rapid.IntRange(0, 9).Draw(t, "ext_extreme") == 0 {
+				op.DurMs = rapid.SampledFrom(qCenturies).Draw(t, "ext_centuries")
+			}
 		case "dead":
 			op.Reason = rapid.SampledFrom([]string{"no_retry", "max_retries", "", "  ", "x y"}).Draw(t, "reason")
 		}
@@ -279,6 +292,9 @@ func genOp(t *rapid.T, p qProfile, cfg QCfg) QOp {
 		switch k {
 		case "nackb":
 			op.DurMs = rapid.SampledFrom(qDelays).Draw(t, "delay")
+			if p.extreme && rapid.IntRange(0, 7).Draw(t, "delay_extreme") == 0 {
+				op.DurMs = rapid.SampledFrom(qCenturies).Draw(t, "delay_centuries")
+			}
 		case "deadb":
 			op.Reason = rapid.SampledFrom([]string{"no_retry", "", " "}).Draw(t, "reason")
 		}
@@ -513,7 +529,7 @@ func profileC05() qProfile {
 	w["enq"] = 12
 	return qProfile{name: "C05", backends: []string{"memory", "sqlite"}, depths: []int{0, 0, 0, 5},
 		drops: []string{"reject"}, retention: false, maxOps: 40, weights: w,
-		padSingle: true, explicitTS: 10, blankIDs: true, deliveredOK: true, motifs: motifsReady}
+		padSingle: true, explicitTS: 10, blankIDs: true, deliveredOK: true, motifs: motifsReady, extreme: true}
 }
 
 func profileC05Sub() qProfile {
